@@ -21,7 +21,7 @@ def plan(tier, seed):
     q = tier == "quick"
     specs = []
     for nd in range(1, 6):
-        n = {1: 30, 2: 24, 3: 12, 4: 6, 5: 3}[nd] * (1 if q else 8)
+        n = {1: 30, 2: 24, 3: 14, 4: 12, 5: 12}[nd] * (1 if q else 8)
         specs.append({"name": "lin-%dD" % nd, "kind": "lin", "nd": nd, "n": n, "timeout": 1500})
         specs.append({"name": "scale-%dD" % nd, "kind": "scale", "nd": nd, "n": n, "timeout": 1500})
     specs.append({"name": "phi1d", "kind": "phi1d", "n": 60 if q else 600, "timeout": 900})
@@ -35,7 +35,10 @@ def required(tier):
             "linearity-program": 5}
 
 
-def draw(rng, nd, frozen=None):
+def draw(rng, nd, frozen=None, focus=None):
+    """focus=(i, kind): population i alone sets the time step, through drift (V), in-migration (M) or selection (S); all the
+    others are large, weakly selected and weakly connected.  Without it any term of any population may be the binding one,
+    which in practice is nearly always somebody's migration."""
     frozen = frozen or [False] * nd
     nus, mnames, gnames, hnames = PNAMES[nd]
     kw, per = {}, []
@@ -43,12 +46,22 @@ def draw(rng, nd, frozen=None):
         nu = float(np.exp(rng.uniform(np.log(0.1), np.log(10))))
         gamma = float(rng.uniform(-8, 8)) if rng.random() < 0.7 else 0.0
         h = float(rng.choice([0.5, rng.uniform(0, 1)]))
+        mlo, mhi = 0.05, 6.0
+        if focus is not None:
+            nu, gamma, (mlo, mhi) = float(rng.uniform(2.5, 10)), float(rng.uniform(-0.3, 0.3)), (0.01, 0.04)
+            if i == focus[0]:
+                if focus[1] == "V":
+                    nu = float(rng.uniform(0.05, 0.2))
+                elif focus[1] == "M":
+                    mlo, mhi = 2.0, 8.0
+                else:
+                    gamma = float(rng.choice([-1, 1]) * rng.uniform(10, 30))
         kw[nus[i]], kw[gnames[i]], kw[hnames[i]] = nu, gamma, h
         ms = []
         for j in range(nd):
             if j == i:
                 continue
-            m = float(rng.uniform(0.05, 6)) if (not frozen[i] and not frozen[j] and rng.random() < 0.6) else 0.0
+            m = float(rng.uniform(mlo, mhi)) if (not frozen[i] and not frozen[j] and rng.random() < 0.6) else 0.0
             kw["m%d%d" % (i + 1, j + 1)] = m
             ms.append(m)
         per.append((nu, ms, gamma, h))
@@ -90,11 +103,23 @@ def run_integ(spec, rec, Integration, kind):
         frozen = [bool(rng.random() < 0.2) for _ in range(nd)] if nd > 1 else [False]
         if all(frozen):
             frozen[0] = False
-        kw, per = draw(rng, nd, frozen)
+        focus = None
+        if kind == "scale":
+            # the first 2*nd cases: each population in turn sets the time step through its selection term, on both parameter paths
+            if ci < 2 * nd:
+                focus = (ci % nd, "S")
+            elif rng.random() < 0.5:
+                focus = (int(rng.integers(nd)), str(rng.choice(["V", "M", "S"])))
+            if focus is not None:
+                frozen[focus[0]] = False
+        kw, per = draw(rng, nd, frozen, focus)
         active = [p for p, fz in zip(per, frozen) if not fz]
         dt = code_dt(active, Integration.timescale_factor)
         T = dt * float(rng.uniform(3.3, 120))
         timevar = bool(rng.random() < 0.5)
+        if kind == "scale":
+            # both parameter paths meet both extreme rescalings in every batch, however few cases it has
+            timevar = (ci // nd) % 2 == 0
         if timevar:
             k0 = PNAMES[nd][0][int(rng.integers(nd))]
             v0 = kw[k0]
@@ -135,13 +160,13 @@ def run_integ(spec, rec, Integration, kind):
             if ok5 and ok6 and np.max(np.abs(r5)) > 0:
                 rec.close("theta-scaling", relerr(np.asarray(r6) / th2, np.asarray(r5) / th1), TOL, site=site, tags=tags)
         else:
-            c = float(rng.choice([0.05, 20.0, np.exp(rng.uniform(np.log(0.05), np.log(20))), np.exp(rng.uniform(np.log(0.05), np.log(20)))]))
+            c = float([20.0, 0.05, np.exp(rng.uniform(np.log(0.05), np.log(20))), np.exp(rng.uniform(np.log(0.05), np.log(20)))][0 if ci < 2 * nd else ci % 4])
             kwt = dict(kw, theta0=th1)
-            desc = {"nd": nd, "L": L, "T": T, "c": c, "timevar": timevar, "frozen": frozen,
+            desc = {"nd": nd, "L": L, "T": T, "c": c, "timevar": timevar, "frozen": frozen, "focus": focus,
                     "kw": {k: v for k, v in kwt.items() if not callable(v)}}
             if not rec.case("sc%d-%d" % (nd, ci), desc, nontrivial=(not 0.9 <= c <= 1.1 and has_rate)):
                 continue
-            tags = {"nd": nd, "timevar": timevar}
+            tags = {"nd": nd, "timevar": timevar, "binding": focus[1] if focus else "any"}
             kws, Ts = scaled(kwt, c, T)
             ok1, r1 = rec.noraise("driver-returns", lambda: f(phi1.copy(), xx, T, **kwt), site=site, tags=tags)
             ok2, r2 = rec.noraise("driver-returns", lambda: f(phi1.copy(), xx, Ts, **kws), site=site, tags=tags)
